@@ -69,7 +69,7 @@ def run(R, cfg, over=None):
     D.prove_list(R, sp, obs_bounds(H))
     D.inv_step(R, sp)
     if getattr(H, "RESET_INV", True):
-        ctx, key, st, ts = D.inv_reset(R, H)
+        ctx, key, st, ts = D.inv_reset(R, H, prove_inv=False)
         obs = [("reset: " + n, v) for n, v in D.spec_bounds_obl(env.observation_spec, ts.observation)]
         for n, v in obs:
             def pred(s_np, ts_np, n=n):
